@@ -508,14 +508,8 @@ func (p *provider) matchingVersionsWithPrereleases(ctx context.Context, req reso
 	if err != nil {
 		return nil, err
 	}
-	sort.Slice(mvs, func(i, j int) bool {
-		iv, _ := semver.PyPI.Parse(mvs[i].Version)
-		jv, _ := semver.PyPI.Parse(mvs[j].Version)
-		if iv == nil || jv == nil {
-			return mvs[i].Version < mvs[j].Version
-		}
-		return iv.Compare(jv) < 0
-	})
+	// Same order as the client's MatchingVersions; intersect relies on it.
+	resolve.SortVersions(mvs)
 	debugf(p.rc, "got %v\n", mvs)
 	mvs = slices.Clone(mvs)
 	p.prereleaseMatchCache.Add(req, mvs)
